@@ -4,12 +4,14 @@ trees and records which other properties a change also breaks.  Writes mutants/C
 import glob, json, os, re, subprocess, sys, time, shutil, tempfile
 HERE = os.path.dirname(os.path.dirname(os.path.abspath(__file__)))
 PROPS = ["C%02d" % i for i in range(1, 21)]
-rows = []
-only = sys.argv[1:]
-for path in sorted(glob.glob(os.path.join(HERE, "seeded", "*", "patch.diff"))):
+only = [a for a in sys.argv[1:] if not a.startswith("-j")]
+JOBS = int(([a[2:] for a in sys.argv[1:] if a.startswith("-j")] or ["1"])[0])
+
+
+def one(path):
     sid = os.path.basename(os.path.dirname(path))
-    if only and not any(o in sid for o in only):
-        continue
+    if only and not any(sid.endswith(o) or o in sid for o in only):
+        return None
     owner = json.load(open(os.path.join(os.path.dirname(path), "meta.json")))["property"]
     tmp = tempfile.mkdtemp(prefix="cccross-", dir="/dev/shm")
     copy = os.path.join(tmp, "repo")
@@ -25,8 +27,13 @@ for path in sorted(glob.glob(os.path.join(HERE, "seeded", "*", "patch.diff"))):
                 err = [l for l in q.stdout.splitlines() if "HARNESS" in l][:1] + q.stdout.strip().splitlines()[-3:]
                 print("ERROR", sid, p, " | ".join(err)[:400], flush=True)
     shutil.rmtree(tmp, ignore_errors=True)
-    rows.append((sid, owner, res))
     print(sid, owner, "".join(res.get(p, "-") for p in PROPS), flush=True)
+    return (sid, owner, res)
+
+
+from concurrent.futures import ThreadPoolExecutor
+with ThreadPoolExecutor(JOBS) as ex:
+    rows = [r for r in ex.map(one, sorted(glob.glob(os.path.join(HERE, "seeded", "*", "patch.diff")))) if r is not None]
 with open(os.path.join(HERE, "mutants", "CROSS.md"), "w") as fh:
     fh.write("# Every seeded change against every quick check\n\n`V` = VIOLATION (exit 1), `.` = silent (exit 0), `E` = harness error (exit 2). Columns C01..C20; the owning property is named.\n\n```\n")
     fh.write("%-10s %-5s %s\n" % ("change", "owner", " ".join(p[1:] for p in PROPS)))
